@@ -238,3 +238,4 @@ def run(ctx: Ctx) -> None:
     ctx.coverage["rule"] = ("one case per TLC-enumerated configuration row (precision exponent, extra exponent, autosave_dt, observable set, reordering, solver, noise class) instantiated on the real MPSConfig + create_impl; "
                             "random: one case per float pair, non-trivial when the requested product is below 1e-12; point-of-use: one case per real TDVP run")
     ctx.coverage["exhaustive"] = True
+    ctx.coverage["distinct_violation_keys"] = sorted(set(ctx.violation_keys))
